@@ -7,6 +7,12 @@
   theorems below say what a passed check means — in terms of Mathlib's `matches'`.  For the bundled
   and hand-written schemas the instances `equivCheck dfa Σ expr V = true` are regenerated from the
   source on every run into `Gen/DfaCerts.lean` and proved there by `decide +kernel`.
+
+  Parts: the checker route; the compiler for every expression; the schema constructor as a whole; the agreement of
+  the two readers; and (last) the refusal side — the dead end stated on the expression itself (`DeadEndSpec`,
+  decidable), its equivalence with `check_for_dead_ends` on the compiled automaton, which refusal `Schema(spec)` gives
+  when several apply, what the reasons mean, exact acceptance, and the spec-level dead-end search of op `c06` with its
+  allowance.
 -/
 import PM.Regex
 import PM.Compile
@@ -16,6 +22,9 @@ import Proofs.SchemaBuild
 import Proofs.SchemaBuildLive
 import Proofs.Placement
 import Proofs.SpecParse
+import Proofs.BuildOrder
+import Proofs.SpecDeadEndFuel
+import Proofs.RefusalCause
 import Props.C15
 namespace PM.C06
 open PM
@@ -490,5 +499,392 @@ theorem buildSchema_rejects_spec (spec : Spec) (i : Nat) (hi : i < spec.nodes.le
     content as `p p` -/
 example : (∀ i, (hi : i < exSpec.nodes.length) → PlainNumbers exSpec.nodes[i].content) ∧
     specParse (nameTable exSpec) "p p" = .ok (RE.seq (RE.sym 1) (RE.sym 1)) := by decide +kernel
+
+/-! ### dead ends on the expression itself, and which refusal comes first
+
+  `DeadEndSpec r gen` is "a required position only non-generatable node types can fill", stated on the regular
+  expression with no automaton in sight.  `check_for_dead_ends` on the compiled automaton holds exactly then
+  (`compile_deadEnd_iff_spec`); the order of the checks of `Schema.__init__` / `NodeType.compile` /
+  `ContentMatch.parse` is `buildSchema_first_error` / `nodeStep_refusal`; the spec-level search of op `c06`
+  (`hasDeadEnd?`) decides `DeadEndSpec` whenever it answers, and always answers with the structural allowance
+  `reachFuel` — so `DeadEndSpec` is decidable and the examples below are by `decide`. -/
+
+/-- what `DeadEndSpec` says: some sequence `w` of node types (generatable or not) can be extended to a match of the
+    expression, yet no extension of `w` by generatable types alone is a match -/
+theorem deadEndSpec_def (r : RE) (gen : Nat → Bool) :
+    DeadEndSpec r gen ↔
+      ∃ w, (∃ v, w ++ v ∈ r.lang) ∧ ¬ ∃ v, (∀ t, t ∈ v → gen t = true) ∧ w ++ v ∈ r.lang := Iff.rfl
+
+/-- **`check_for_dead_ends` is the declarative dead end**: on the compiled automaton of every expression — as built
+    and renumbered breadth-first, the form `ContentMatch.parse` checks — the test finds a dead end exactly when the
+    expression, read as a regular expression, has one -/
+theorem compile_deadEnd_iff_spec (e : Expr) (h : e.wf = true) (gen : Nat → Bool) :
+    ((dfa (nfa e)).hasDeadEnd gen = true ↔ DeadEndSpec e.toRE gen) ∧
+    ((dfa (nfa e)).bfs.hasDeadEnd gen = true ↔ DeadEndSpec e.toRE gen) :=
+  ⟨compile_deadEnd_spec' e h gen, compile_bfs_deadEnd_spec' e h gen⟩
+
+/-- … in terms of the specification reader alone: an expression `specParse` reads as `r` is accepted by the code's
+    parser, and the dead-end test on the automaton compiled from it holds exactly when `r` has a dead end -/
+theorem compile_deadEnd_spec (table : List NameInfo) (s : String) (r : RE) (h : specParse table s = .ok r)
+    (gen : Nat → Bool) :
+    ∃ oe, parseC table s = .ok oe ∧ ((compileDfa oe).hasDeadEnd gen = true ↔ DeadEndSpec r gen) := by
+  obtain ⟨oe, hp, rfl⟩ := specParse_ok_parseC table s r h
+  refine ⟨oe, hp, ?_⟩
+  cases oe with
+  | none =>
+    have h1 : (compileDfa none).hasDeadEnd gen = false := emptyMatch_noDeadEnd gen
+    simp only [h1, Bool.false_eq_true, false_iff]
+    exact not_deadEndSpec_eps gen
+  | some e => exact (compile_deadEnd_iff_spec e (parseC_wf hp).1 gen).1
+
+/-- **which refusal `ContentMatch.parse` gives**: the parser's, with its reason, if the parser refuses; else the
+    dead-end refusal exactly when the expression has `DeadEndSpec`; no other -/
+theorem contentMatch_refusal (spec : Spec) (s : String) (err : BuildErr) :
+    contentMatch spec s = .error err ↔
+      (∃ ce, parseC (nameTable spec) s = .error ce ∧ err = .content ce) ∨
+      (∃ oe, parseC (nameTable spec) s = .ok oe ∧ DeadEndSpec (contentRE oe) (specGen spec) ∧ err = .deadEnd) :=
+  contentMatch_error_iff spec s err
+
+/-- … in terms of the specification reader (counts plain numbers): the reason `specParse` gives — unknown name,
+    inline/block mixing, syntax, whichever its left-to-right reading meets first — is the kind of the refusal; an
+    expression it reads is refused for a dead end exactly when it has `DeadEndSpec`, and accepted otherwise -/
+theorem contentMatch_refusal_spec (spec : Spec) (s : String) (hp : PlainNumbers s) :
+    (∀ perr, specParse (nameTable spec) s = .error perr ↔
+      ∃ ce, contentMatch spec s = .error (.content ce) ∧ ce.toPErr = perr) ∧
+    (∀ r, specParse (nameTable spec) s = .ok r →
+      (contentMatch spec s = .error .deadEnd ↔ DeadEndSpec r (specGen spec)) ∧
+      ((∃ d, contentMatch spec s = .ok d) ↔ ¬ DeadEndSpec r (specGen spec))) :=
+  contentMatch_verdict_spec spec s hp
+
+/-- **the order of the refusals within one round of the node loop** (`nodeStep`: the round with the content cache
+    taken out — `buildNodes_steps` shows the cache is not observable): the node name is also a mark name; else the
+    parser refuses the content expression; else the expression has a dead end; else the `marks` expression names an
+    unknown mark -/
+theorem nodeStep_refusal (spec : Spec) (ns : NodeSpec) (err : BuildErr) :
+    nodeStep spec ns = .error err ↔
+      ((∃ m ∈ spec.marks, m.name = ns.name) ∧ err = .table .nameClash) ∨
+      ((∀ m ∈ spec.marks, m.name ≠ ns.name) ∧
+        ((∃ ce, parseC (nameTable spec) ns.content = .error ce ∧ err = .content ce) ∨
+         (∃ oe, parseC (nameTable spec) ns.content = .ok oe ∧
+            ((DeadEndSpec (contentRE oe) (specGen spec) ∧ err = .deadEnd) ∨
+             (¬ DeadEndSpec (contentRE oe) (specGen spec) ∧
+               (∃ e, ns.marks = some e ∧ e ≠ "_" ∧ e ≠ "" ∧ ¬ ExprKnown spec.marks e) ∧
+               err = .table .unknownMark))))) :=
+  nodeStep_error_iff spec ns err
+
+/-- a round passes exactly when none of the four applies -/
+theorem nodeStep_passes (spec : Spec) (ns : NodeSpec) :
+    (∃ nt, nodeStep spec ns = .ok nt) ↔
+      (∀ m ∈ spec.marks, m.name ≠ ns.name) ∧
+      (∃ oe, parseC (nameTable spec) ns.content = .ok oe ∧ ¬ DeadEndSpec (contentRE oe) (specGen spec)) ∧
+      (∀ e, ns.marks = some e → e ≠ "_" → e ≠ "" → ExprKnown spec.marks e) :=
+  nodeStep_ok_iff spec ns
+
+/-- **which refusal `Schema(spec)` gives when several apply** — the order of the checks as a theorem of the model:
+    no top node type; no `text` type; attributes on `text`; then the first node type in declaration order that does
+    not pass its round of the node loop, with the refusal of that round (`nodeStep_refusal`); then the first mark
+    type whose `excludes` names an unknown mark.  (`HeadOk`: the three checks before the loop pass.
+    `FirstNodeErr spec err`: some node type `i` is refused with `err` and every `j < i` passes.) -/
+theorem buildSchema_first_error (spec : Spec) (err : BuildErr) :
+    buildSchema spec = .error err ↔
+      (spec.nodes.findIdx? (fun n => n.name == spec.topName) = none ∧ err = .table .missingTop) ∨
+      ((∃ top, spec.nodes.findIdx? (fun n => n.name == spec.topName) = some top) ∧
+        spec.nodes.findIdx? (fun n => n.name == "text") = none ∧ err = .table .missingText) ∨
+      ((∃ top, spec.nodes.findIdx? (fun n => n.name == spec.topName) = some top) ∧
+        (∃ textTy, spec.nodes.findIdx? (fun n => n.name == "text") = some textTy ∧
+          (spec.nodes[textTy]?.map (fun n => n.attrs.isEmpty)).getD true = false) ∧ err = .table .textAttrs) ∨
+      (HeadOk spec ∧ FirstNodeErr spec err) ∨
+      (HeadOk spec ∧ (∀ i (hi : i < spec.nodes.length), ∃ nt, nodeStep spec spec.nodes[i] = .ok nt) ∧
+        ∃ e, seqIdx (compileMark spec) 0 spec.marks = .error e ∧ err = .table e) :=
+  buildSchema_error_iff spec err
+
+/-- **the kind of the refusal, from the specification**: when the checks before the loop pass and every node type
+    before `i` passes its round, what is wrong with node type `i` decides the refusal of `Schema(spec)` — whatever
+    else is wrong with `i`, with any later node type or with the marks: a name that is also a mark name gives the
+    name clash; else (counts plain numbers) a content expression `specParse` refuses gives the content refusal with
+    the reason `specParse` gives; else, `specParse` reading it as `r`, a dead end of `r` gives the dead-end refusal;
+    else a `marks` expression naming an unknown mark gives that refusal -/
+theorem buildSchema_refusal_kind (spec : Spec) (hhead : HeadOk spec) (i : Nat) (hi : i < spec.nodes.length)
+    (hbefore : ∀ j (hj : j < i), ∃ nt, nodeStep spec (spec.nodes[j]'(Nat.lt_trans hj hi)) = .ok nt) :
+    ((∃ m ∈ spec.marks, m.name = spec.nodes[i].name) → buildSchema spec = .error (.table .nameClash)) ∧
+    ((∀ m ∈ spec.marks, m.name ≠ spec.nodes[i].name) → PlainNumbers spec.nodes[i].content →
+      (∀ perr, specParse (nameTable spec) spec.nodes[i].content = .error perr →
+        ∃ ce, buildSchema spec = .error (.content ce) ∧ ce.toPErr = perr) ∧
+      (∀ r, specParse (nameTable spec) spec.nodes[i].content = .ok r →
+        (DeadEndSpec r (specGen spec) → buildSchema spec = .error .deadEnd) ∧
+        (¬ DeadEndSpec r (specGen spec) →
+          (∃ e, spec.nodes[i].marks = some e ∧ e ≠ "_" ∧ e ≠ "" ∧ ¬ ExprKnown spec.marks e) →
+          buildSchema spec = .error (.table .unknownMark)))) := by
+  have hstep : ∀ err, nodeStep spec spec.nodes[i] = .error err → buildSchema spec = .error err := fun err he =>
+    (buildSchema_error_iff spec err).2 (Or.inr (Or.inr (Or.inr (Or.inl ⟨hhead, i, hi, he, hbefore⟩))))
+  refine ⟨fun hc => hstep _ ((nodeStep_error_iff spec _ _).2 (Or.inl ⟨hc, rfl⟩)), fun hclash hp => ?_⟩
+  have hrd := specParse_eq (nameTable spec) spec.nodes[i].content hp
+  refine ⟨fun perr hs => ?_, fun r hs => ?_⟩
+  · rw [hrd] at hs
+    cases hc : parseC (nameTable spec) spec.nodes[i].content with
+    | ok oe => rw [hc] at hs; cases hs
+    | error ce =>
+      rw [hc] at hs
+      simp only [codeReading, Except.error.injEq] at hs
+      exact ⟨ce, hstep _ ((nodeStep_error_iff spec _ _).2 (Or.inr ⟨hclash, Or.inl ⟨ce, hc, rfl⟩⟩)), hs⟩
+  · obtain ⟨oe, hc, rfl⟩ := specParse_ok_parseC _ _ r hs
+    exact ⟨fun hd => hstep _ ((nodeStep_error_iff spec _ _).2 (Or.inr ⟨hclash, Or.inr ⟨oe, hc, Or.inl ⟨hd, rfl⟩⟩⟩)),
+      fun hnd hm => hstep _ ((nodeStep_error_iff spec _ _).2
+        (Or.inr ⟨hclash, Or.inr ⟨oe, hc, Or.inr ⟨hnd, hm, rfl⟩⟩⟩))⟩
+
+/-- **what the reasons of the specification reader mean**: an expression refused for an unknown name has a word
+    that is neither a node type nor a group with members; an expression refused for mixing has two words (possibly
+    the same group name) standing for node types of which one is inline and the other is not.  (Which reason is
+    given when several apply is the left-to-right reading of `specParse`; `syntax` is every other refusal.) -/
+theorem specParse_refusal_cause (table : List NameInfo) (s : String) :
+    (specParse table s = .error .unknownName →
+      ∃ t, t ∈ tokenize s ∧ isWordTok t = true ∧ resolveIds table t = []) ∧
+    (specParse table s = .error .mixed →
+      ∃ t t', t ∈ tokenize s ∧ t' ∈ tokenize s ∧ isWordTok t = true ∧ isWordTok t' = true ∧
+        ∃ a b, a ∈ resolveIds table t ∧ b ∈ resolveIds table t' ∧ (table[a]!).isInline ≠ (table[b]!).isInline) :=
+  ⟨fun h => specParse_cause table s _ h, fun h => specParse_cause table s _ h⟩
+
+/-- **a content or dead-end refusal of `Schema(spec)` has its cause**: some node type `i` — every one before it
+    passes its round — whose content expression the parser refuses with that very error (and, counts plain numbers,
+    `specParse` refuses for the corresponding reason, with the cause of `specParse_refusal_cause`), respectively
+    whose expression the parser accepts and which has `DeadEndSpec` -/
+theorem buildSchema_refusal_cause (spec : Spec) :
+    (∀ ce, buildSchema spec = .error (.content ce) →
+      ∃ i, ∃ hi : i < spec.nodes.length, parseC (nameTable spec) spec.nodes[i].content = .error ce ∧
+        (∀ j (hj : j < i), ∃ nt, nodeStep spec (spec.nodes[j]'(Nat.lt_trans hj hi)) = .ok nt) ∧
+        (PlainNumbers spec.nodes[i].content →
+          specParse (nameTable spec) spec.nodes[i].content = .error ce.toPErr ∧
+          ErrCause (nameTable spec) (tokenize spec.nodes[i].content) ce.toPErr)) ∧
+    (buildSchema spec = .error .deadEnd →
+      ∃ i, ∃ hi : i < spec.nodes.length, ∃ oe, parseC (nameTable spec) spec.nodes[i].content = .ok oe ∧
+        DeadEndSpec (contentRE oe) (specGen spec) ∧
+        ∀ j (hj : j < i), ∃ nt, nodeStep spec (spec.nodes[j]'(Nat.lt_trans hj hi)) = .ok nt) := by
+  refine ⟨fun ce hb => ?_, fun hb => ?_⟩
+  · rcases (buildSchema_error_iff spec _).1 hb with ⟨_, h⟩ | ⟨_, _, h⟩ | ⟨_, _, h⟩ | ⟨_, i, hi, he, hbefore⟩ |
+      ⟨_, _, e, _, h⟩
+    · cases h
+    · cases h
+    · cases h
+    · refine ⟨i, hi, ?_, hbefore, ?_⟩
+      · rcases (nodeStep_error_iff spec _ _).1 he with ⟨_, h⟩ | ⟨_, ⟨ce', h1, h2⟩ | ⟨_, _, ⟨_, h⟩ | ⟨_, _, h⟩⟩⟩
+        · cases h
+        · cases h2; exact h1
+        · cases h
+        · cases h
+      · intro hp
+        have hce : parseC (nameTable spec) spec.nodes[i].content = .error ce := by
+          rcases (nodeStep_error_iff spec _ _).1 he with ⟨_, h⟩ | ⟨_, ⟨ce', h1, h2⟩ | ⟨_, _, ⟨_, h⟩ | ⟨_, _, h⟩⟩⟩
+          · cases h
+          · cases h2; exact h1
+          · cases h
+          · cases h
+        have hs : specParse (nameTable spec) spec.nodes[i].content = .error ce.toPErr := by
+          rw [specParse_eq _ _ hp, hce]; rfl
+        exact ⟨hs, specParse_cause _ _ _ hs⟩
+    · cases h
+  · rcases (buildSchema_error_iff spec _).1 hb with ⟨_, h⟩ | ⟨_, _, h⟩ | ⟨_, _, h⟩ | ⟨_, i, hi, he, hbefore⟩ |
+      ⟨_, _, e, _, h⟩
+    · cases h
+    · cases h
+    · cases h
+    · rcases (nodeStep_error_iff spec _ _).1 he with ⟨_, h⟩ | ⟨_, ⟨_, _, h⟩ | ⟨oe, h1, ⟨h2, _⟩ | ⟨_, _, h⟩⟩⟩
+      · cases h
+      · cases h
+      · exact ⟨i, hi, oe, h1, h2, hbefore⟩
+      · cases h
+    · cases h
+
+/-- **the dead-end refusal, exactly**: for a spec in which everything else is in order (the checks before the loop
+    pass, no node name is a mark name, every `marks` expression names known marks, `specParse` reads every content
+    expression), `Schema(spec)` refuses with the dead-end error exactly when the content expression of some node
+    type has `DeadEndSpec` — and accepts otherwise if the `excludes` of the marks are in order -/
+theorem buildSchema_rejects_deadEnd_iff (spec : Spec) (hhead : HeadOk spec)
+    (hclash : ∀ n ∈ spec.nodes, ∀ m ∈ spec.marks, m.name ≠ n.name)
+    (hmarks : ∀ n ∈ spec.nodes, ∀ e, n.marks = some e → e ≠ "_" → e ≠ "" → ExprKnown spec.marks e)
+    (hparse : ∀ i (hi : i < spec.nodes.length), ∃ r, specParse (nameTable spec) spec.nodes[i].content = .ok r) :
+    buildSchema spec = .error .deadEnd ↔
+      ∃ i, ∃ hi : i < spec.nodes.length, ∃ r, specParse (nameTable spec) spec.nodes[i].content = .ok r ∧
+        DeadEndSpec r (specGen spec) := by
+  -- the round of node type `n`: passes, or the dead-end refusal
+  have hround : ∀ n (hn : n < spec.nodes.length), ∃ oe, parseC (nameTable spec) spec.nodes[n].content = .ok oe ∧
+      specParse (nameTable spec) spec.nodes[n].content = .ok (contentRE oe) ∧
+      (DeadEndSpec (contentRE oe) (specGen spec) → nodeStep spec spec.nodes[n] = .error .deadEnd) ∧
+      (¬ DeadEndSpec (contentRE oe) (specGen spec) → ∃ nt, nodeStep spec spec.nodes[n] = .ok nt) := by
+    intro n hn
+    obtain ⟨r, hr⟩ := hparse n hn
+    obtain ⟨oe, hc, rfl⟩ := specParse_ok_parseC _ _ r hr
+    have hmem : spec.nodes[n] ∈ spec.nodes := List.getElem_mem hn
+    refine ⟨oe, hc, hr, fun hd => ?_, fun hnd => ?_⟩
+    · exact (nodeStep_error_iff spec _ _).2 (Or.inr ⟨hclash _ hmem, Or.inr ⟨oe, hc, Or.inl ⟨hd, rfl⟩⟩⟩)
+    · exact (nodeStep_ok_iff spec _).2 ⟨hclash _ hmem, ⟨oe, hc, hnd⟩, hmarks _ hmem⟩
+  constructor
+  · intro hb
+    rcases (buildSchema_error_iff spec .deadEnd).1 hb with ⟨_, h⟩ | ⟨_, _, h⟩ | ⟨_, _, h⟩ | ⟨_, k, hk, hke, _⟩ |
+      ⟨_, _, e, _, h⟩
+    · cases h
+    · cases h
+    · cases h
+    · obtain ⟨oe, hc, hr, _, h2⟩ := hround k hk
+      refine ⟨k, hk, _, hr, ?_⟩
+      by_contra hnd
+      obtain ⟨nt, hnt⟩ := h2 hnd
+      rw [hnt] at hke
+      cases hke
+    · cases h
+  · rintro ⟨i, hi, r, hr, hd⟩
+    -- the first node type with a dead end
+    have hex : ∃ i, i < spec.nodes.length ∧ ∃ hi : i < spec.nodes.length, ∃ r,
+        specParse (nameTable spec) spec.nodes[i].content = .ok r ∧ DeadEndSpec r (specGen spec) :=
+      ⟨i, hi, hi, r, hr, hd⟩
+    classical
+    let k := Nat.find hex
+    obtain ⟨hk, _, r', hr', hd'⟩ := Nat.find_spec hex
+    have hmin : ∀ j, j < k → ¬ (j < spec.nodes.length ∧ ∃ hj : j < spec.nodes.length, ∃ r,
+        specParse (nameTable spec) spec.nodes[j].content = .ok r ∧ DeadEndSpec r (specGen spec)) :=
+      fun j hj => Nat.find_min hex hj
+    refine (buildSchema_error_iff spec .deadEnd).2 (Or.inr (Or.inr (Or.inr (Or.inl ⟨hhead, k, hk, ?_, ?_⟩))))
+    · obtain ⟨oe, _, hr2, h1, _⟩ := hround k hk
+      rw [hr'] at hr2
+      cases hr2
+      exact h1 hd'
+    · intro j hj
+      have hjl : j < spec.nodes.length := Nat.lt_trans hj hk
+      obtain ⟨oe, _, hr2, _, h2⟩ := hround j hjl
+      exact h2 (fun hdj => hmin j hj ⟨hjl, hjl, _, hr2, hdj⟩)
+
+/-- **acceptance, exactly**: `Schema(spec)` builds iff the checks before the loop pass, every node type passes its
+    round (no name clash, the parser accepts the content expression, the expression has no dead end, the `marks`
+    expression names known marks), and every `excludes` names known marks -/
+theorem buildSchema_accepts_iff (spec : Spec) :
+    (∃ S, buildSchema spec = .ok S) ↔
+      HeadOk spec ∧
+      (∀ n ∈ spec.nodes, (∀ m ∈ spec.marks, m.name ≠ n.name) ∧
+        (∃ oe, parseC (nameTable spec) n.content = .ok oe ∧ ¬ DeadEndSpec (contentRE oe) (specGen spec)) ∧
+        (∀ e, n.marks = some e → e ≠ "_" → e ≠ "" → ExprKnown spec.marks e)) ∧
+      (∀ m ∈ spec.marks, ∀ e, m.excludes = some e → e ≠ "" → ExprKnown spec.marks e) :=
+  buildSchema_ok_iff spec
+
+/-- … in terms of the specification alone (counts plain numbers): a spec is accepted iff its tables are in order,
+    `specParse` reads every content expression — it is an expression of the documented grammar, its names are
+    known and not mixed — and none has a dead end.  The last clause of C06 ("malformed expressions … are rejected
+    when the schema is built") with its converse -/
+theorem buildSchema_accepts_iff_spec (spec : Spec) (hplain : ∀ n ∈ spec.nodes, PlainNumbers n.content) :
+    (∃ S, buildSchema spec = .ok S) ↔
+      HeadOk spec ∧
+      (∀ n ∈ spec.nodes, (∀ m ∈ spec.marks, m.name ≠ n.name) ∧
+        (∃ r, specParse (nameTable spec) n.content = .ok r ∧ ¬ DeadEndSpec r (specGen spec)) ∧
+        (∀ e, n.marks = some e → e ≠ "_" → e ≠ "" → ExprKnown spec.marks e)) ∧
+      (∀ m ∈ spec.marks, ∀ e, m.excludes = some e → e ≠ "" → ExprKnown spec.marks e) := by
+  rw [buildSchema_ok_iff]
+  have key : ∀ n ∈ spec.nodes,
+      ((∃ oe, parseC (nameTable spec) n.content = .ok oe ∧ ¬ DeadEndSpec (contentRE oe) (specGen spec)) ↔
+        (∃ r, specParse (nameTable spec) n.content = .ok r ∧ ¬ DeadEndSpec r (specGen spec))) := by
+    intro n hn
+    rw [specParse_eq _ _ (hplain n hn)]
+    cases parseC (nameTable spec) n.content with
+    | error ce => simp [codeReading]
+    | ok oe => simp [codeReading]
+  constructor
+  · rintro ⟨h1, h2, h3⟩
+    exact ⟨h1, fun n hn => ⟨(h2 n hn).1, (key n hn).1 (h2 n hn).2.1, (h2 n hn).2.2⟩, h3⟩
+  · rintro ⟨h1, h2, h3⟩
+    exact ⟨h1, fun n hn => ⟨(h2 n hn).1, (key n hn).2 (h2 n hn).2.1, (h2 n hn).2.2⟩, h3⟩
+
+/-- **the spec-level dead-end search of op `c06` decides the specification whenever it answers**: over an alphabet
+    that has the symbols of the expression, `hasDeadEnd? sigma gen r = some b` means `b` is `DeadEndSpec r gen` -/
+theorem hasDeadEnd?_decides (sigma : List Nat) (gen : Nat → Bool) (r : RE) (hs : ∀ b, b ∈ r.syms → b ∈ sigma)
+    (b : Bool) (h : hasDeadEnd? sigma gen r = some b) : b = true ↔ DeadEndSpec r gen :=
+  hasDeadEnd?_spec sigma gen r hs b h
+
+/-- … as op `c06` calls it: for an expression `specParse` reads, over the node types of the table -/
+theorem c06_dead_correct (table : List NameInfo) (s : String) (r : RE) (h : specParse table s = .ok r)
+    (gen : Nat → Bool) (b : Bool) (hb : hasDeadEnd? (List.range table.length) gen r = some b) :
+    b = true ↔ DeadEndSpec r gen := by
+  refine hasDeadEnd?_spec _ gen r (fun c hc => ?_) b hb
+  obtain ⟨oe, hp, rfl⟩ := specParse_ok_parseC table s r h
+  cases oe with
+  | none => simp [contentRE, RE.syms] at hc
+  | some e => exact List.mem_range.2 ((parseC_wf hp).2 c (toRE_syms e c hc))
+
+/-- **the allowance**: the exploration visits pairwise different sets of partial derivatives of `r` (Antimirov:
+    all of them among `r :: pdAll r`), at most `2 ^ (#pdAll r + 1)` of them, each with `#sigma` successors; with an
+    allowance of `reachFuel sigma r = 1 + 2 ^ (#pdAll r + 1) * #sigma` or more the search answers; `#pdAll r` is the
+    number of symbol occurrences of `r` (`r.syms.length`: names after group expansion and unrolling of the counts).  In particular
+    "unknown" is unreachable in op `c06` (allowance 200000) for every expression with `reachFuel sigma r ≤ 200000`,
+    and with the structural allowance for every expression -/
+theorem hasDeadEnd?_answers (sigma : List Nat) (gen : Nat → Bool) (r : RE) :
+    reachFuel sigma r = 1 + 2 ^ (r.syms.length + 1) * sigma.length ∧
+    (∀ fuel, reachFuel sigma r ≤ fuel → ∃ b, hasDeadEndWith? fuel sigma gen r = some b) ∧
+    (reachFuel sigma r ≤ 200000 → ∃ b, hasDeadEnd? sigma gen r = some b) :=
+  ⟨reachFuel_eq sigma r, fun fuel hf => hasDeadEndWith?_total fuel sigma gen r hf, hasDeadEnd?_total sigma gen r⟩
+
+/-- so the declarative dead end is decidable: the search with the structural allowance over the symbols of the
+    expression (`decDeadEnd`) is a decision procedure for it (registered as the `Decidable` instance) -/
+theorem deadEndSpec_decided (r : RE) (gen : Nat → Bool) : decDeadEnd r gen = true ↔ DeadEndSpec r gen :=
+  decDeadEnd_iff r gen
+
+/-- the allowance of op `c06` covers e.g. every expression with at most 12 symbol occurrences over 20 node types
+    (here: one with 6 partial derivatives) -/
+example : reachFuel (List.range 20) (RE.seq (RE.star (RE.alt (RE.sym 0) (RE.seq (RE.sym 1) (RE.sym 2))))
+    (RE.range (RE.sym 3) 2 (some 3))) ≤ 200000 := by decide
+
+/-- **examples, by `decide`** (`a` = node type 0, generatable; `img` = node type 1, required attribute):
+    `a* img` has a dead end — after any number of `a` only the non-generatable `img` completes the content … -/
+example : DeadEndSpec (RE.seq (RE.star (RE.sym 0)) (RE.sym 1)) (fun t => t != 1) := by decide
+/-- … `(a | img)+` has none: every prefix can be completed by `a`s (or is complete) … -/
+example : ¬ DeadEndSpec (RE.plus (RE.alt (RE.sym 0) (RE.sym 1))) (fun t => t != 1) := by decide
+/-- … `(a a)* a img` has one although every state *offers* the generatable `a` (the reading is global) … -/
+example : DeadEndSpec (RE.seq (RE.star (RE.seq (RE.sym 0) (RE.sym 0))) (RE.seq (RE.sym 0) (RE.sym 1)))
+    (fun t => t != 1) := by decide
+/-- … `img?  a` and `(img | a) a*` have none, `img{1,2}` has one -/
+example : ¬ DeadEndSpec (RE.seq (RE.opt (RE.sym 1)) (RE.sym 0)) (fun t => t != 1) ∧
+    ¬ DeadEndSpec (RE.seq (RE.alt (RE.sym 1) (RE.sym 0)) (RE.star (RE.sym 0))) (fun t => t != 1) ∧
+    DeadEndSpec (RE.range (RE.sym 1) 1 (some 2)) (fun t => t != 1) := by decide
+
+/-- the same on the example spec above, through the specification reader and the generatable test of the spec
+    (`br` generatable, `img` has a required attribute): `br* img` has a dead end, `(br | img)+` has none -/
+example : (∃ r, specParse (nameTable exSpec) "br* img" = .ok r ∧ DeadEndSpec r (specGen exSpec)) ∧
+    (∃ r, specParse (nameTable exSpec) "(br | img)+" = .ok r ∧ ¬ DeadEndSpec r (specGen exSpec)) :=
+  ⟨⟨RE.seq (RE.star (RE.sym 3)) (RE.sym 4), by decide +kernel, by decide +kernel⟩,
+   ⟨RE.plus (RE.alt (RE.sym 3) (RE.sym 4)), by decide +kernel, by decide +kernel⟩⟩
+
+/-! non-vacuity of the refusal theorems, on specs whose automata the kernel cannot evaluate (repetitions): the
+    theorems give the refusal from the *specification* — `specParse`, `DeadEndSpec` by `decide` — with no run of the
+    compiler -/
+
+private theorem exists_ok_of_toBool {ε α : Type} {x : Except ε α} (h : x.toBool = true) : ∃ r, x = .ok r := by
+  cases x with
+  | error e => cases h
+  | ok r => exact ⟨r, rfl⟩
+
+/-- `fig` with content `br* img` (a dead end) at the end of the example spec -/
+private def exDead : Spec :=
+  { exSpec with nodes := exSpec.nodes ++ [{ name := "fig", content := "br* img" }] }
+
+/-- everything else is in order, so `Schema(exDead)` gives the dead-end refusal: by `buildSchema_rejects_deadEnd_iff`
+    and `decide` on the specification -/
+example : buildSchema exDead = .error .deadEnd := by
+  have hnone : ∀ n ∈ exDead.nodes, n.marks = none := by decide
+  refine (buildSchema_rejects_deadEnd_iff exDead (by decide) (by decide)
+    (fun n hn e he => by rw [hnone n hn] at he; cases he)
+    (fun i hi => exists_ok_of_toBool (by revert i; decide +kernel))).2 ?_
+  exact ⟨5, by decide, RE.seq (RE.star (RE.sym 3)) (RE.sym 4), by decide +kernel, by decide +kernel⟩
+
+/-- several things wrong at once: `doc` has an unknown name *and* an unclosed group in its content and an unknown
+    mark in `marks`, `fig` has a dead end, the mark excludes an unknown mark.  The first check that speaks is the
+    parser on `doc`, and its left-to-right reading meets the unknown name first -/
+private def exMany : Spec := {
+  nodes := [
+    { name := "doc", content := "p nosuch (", marks := some "nomark" },
+    { name := "p", content := "br", group := some "block" },
+    { name := "text", group := some "inline" },
+    { name := "br", inline := true, group := some "inline" },
+    { name := "img", inline := true, group := some "inline", attrs := [{ name := "src" }] },
+    { name := "fig", content := "img" }],
+  marks := [{ name := "em", excludes := some "nomark" }] }
+
+example : ∃ ce, buildSchema exMany = .error (.content ce) ∧ ce.toPErr = .unknownName :=
+  ((buildSchema_refusal_kind exMany (by decide) 0 (by decide)
+    (fun j hj => absurd hj (Nat.not_lt_zero j))).2 (by decide) (by decide +kernel)).1 .unknownName (by decide +kernel)
 
 end PM.C06
